@@ -5,6 +5,8 @@ import Ledger.Proofs.MachineAsset
     posting. -/
 namespace Ledger.Machine
 
+variable {cfg : Cfg}
+
 /-- The expressions of one generated statement evaluate to the posting's fields. -/
 structure TxBinding (env : Env) (monE srcE dstE : Expr) (p : TxPosting) : Prop where
   mon : evalExpr env monE = .ok (.monetary p.asset (some p.amount))
@@ -59,7 +61,7 @@ theorem finishSend_single {env : Env} {e : Expr} {d a asset : String} {amt : Int
 /-- A bounded source (`source = $acc`): the generated statement posts exactly the posting. -/
 theorem txStmt_bounded {env : Env} {monE srcE dstE : Expr} {p : TxPosting}
     (hb : TxBinding env monE srcE dstE p) (hw : srcE.isWorld = false) (st st' : State)
-    (h : evalStmt env (.send monE (.src (.account srcE .none)) (.account dstE)) st = .ok st') :
+    (h : evalStmt cfg env (.send monE (.src (.account srcE .none)) (.account dstE)) st = .ok st') :
     st'.postings = st.postings ++ [p] := by
   cases hwa : withdrawAll st.bal p.source p.asset (some 0) with
   | error e =>
@@ -102,13 +104,13 @@ theorem txStmt_bounded {env : Env} {monE srcE dstE : Expr} {p : TxPosting}
 theorem txStmt_unbounded {env : Env} {monE srcE dstE : Expr} {p : TxPosting} {od : Overdraft}
     (hb : TxBinding env monE srcE dstE p)
     (hod : od = .unbounded ∨ (od = .none ∧ srcE.isWorld = true)) (st st' : State)
-    (h : evalStmt env (.send monE (.src (.account srcE od)) (.account dstE)) st = .ok st') :
+    (h : evalStmt cfg env (.send monE (.src (.account srcE od)) (.account dstE)) st = .ok st') :
     st'.postings = st.postings ++ [p] := by
   have hfb : (Source.account srcE od).fallback = some srcE := by
     rcases hod with rfl | ⟨rfl, hw⟩
     · rfl
     · simp [Source.fallback, hw]
-  have hsrc : evalSource env p.asset (.account srcE od) st.bal =
+  have hsrc : evalSource cfg env p.asset (.account srcE od) st.bal =
       .ok (⟨p.asset, [(withdrawAlways st.bal p.source p.asset 0).1]⟩,
         (withdrawAlways st.bal p.source p.asset 0).2) := by
     rcases hod with rfl | ⟨rfl, hw⟩
